@@ -1274,7 +1274,33 @@ class Interp:
         if isinstance(n, (ast.ListComp, ast.GeneratorExp, ast.SetComp)):
             return self.comprehension(n, env)
         if isinstance(n, ast.DictComp):
-            return self.unknown("dictcomp", n)
+            if len(n.generators) != 1 or n.generators[0].ifs:
+                return self.unknown("dictcomp", n)
+            g = n.generators[0]
+            it = self.eval(g.iter, env)
+            sp, iv, elem = self.iteration(it, g.iter)
+            sub = dict(env)
+            if sp is None:
+                d = {}
+                for item in elem:
+                    self.assign(g.target, item, sub, n)
+                    kv = self.eval(n.key, sub)
+                    vv = self.eval(n.value, sub)
+                    if isinstance(kv, StrV):
+                        d[kv.s] = vv
+                    elif isinstance(kv, Sc) and kv.e[0] == "num":
+                        d[kv.e[1]] = vv
+                    else:
+                        return self.unknown("dictcomp-key", n)
+                return DictV(d)
+            self.assign(g.target, elem(), sub, n)
+            kv = self.eval(n.key, sub)
+            vv = self.eval(n.value, sub)
+            dv = DictV({}, generic=vv)
+            dv.key_kind = "str" if isinstance(kv, StrV) else "other"
+            self.event("store", n, base=dv, idx=[("str", "<formatted>")] if isinstance(kv, StrV) else [("expr", generic_elem(kv))],
+                       value=vv, target=None)
+            return dv
         if isinstance(n, ast.Lambda):
             fr = self.frames[-1]
             return FuncV("lambda", n, closure=env)
@@ -1462,6 +1488,8 @@ class Interp:
             for x in base.vals:
                 if isinstance(x, DictV) and not x.d and x.generic is None:
                     continue  # KeyError path: raises, yields no value
+                if isinstance(x, NoneV):
+                    continue  # TypeError path: raises, yields no value
                 outs.append(self.subscript(x, idx, node))
             if len(outs) == 1:
                 return outs[0]
